@@ -192,6 +192,14 @@ class Cfg:
     def canon_atom(self, text: str, st: St) -> str:
         return text
 
+    def loop_elem(self, node: ast.For, iter_term: ast.expr, st: St) -> ast.expr | None:
+        """Symbolic element of a for-loop (default: $elem(<iter term>))."""
+        return None
+
+    def canon_term(self, t: ast.expr, st: St) -> ast.expr:
+        """Rewrite an atom's term before it is rendered (e.g. collapse a constructor term to a short alias)."""
+        return t
+
     def consistent(self, val: dict[str, bool]) -> bool:
         return True
 
@@ -274,6 +282,8 @@ class _Subst(ast.NodeTransformer):
             t = self.env[n.id]
             if isinstance(t, ast.FunctionDef):
                 return n
+            if isinstance(t, (ast.List, ast.Dict, ast.Set, ast.ListComp, ast.DictComp, ast.SetComp)):
+                return n  # mutable container: identity matters, keep the variable
             return copy.deepcopy(t)
         return n
 
@@ -564,7 +574,7 @@ class Enumerator:
                 continue
             body_st = st1.fork()
             self._havoc(body_st, _assigned_names(s.body), _stored_attrs(s.body), tag)
-            elem = ast.Call(ast.Name("$elem", ast.Load()), [it], [])
+            elem = self.cfg.loop_elem(s, it, st1) or ast.Call(ast.Name("$elem", ast.Load()), [it], [])
             for st_b, e in self.bind(s.target, elem, body_st, s, quiet=True):
                 pass
             out.extend(self._loop_common(s, st1, body_st, "for", render(it), tag, None))
@@ -1074,6 +1084,7 @@ class Enumerator:
         dec = self._errno_test(t, st)
         if dec is not None:
             return [(st, dec != neg)]
+        t = self.cfg.canon_term(t, st)
         text = self.cfg.canon_atom(render(t), st)
         if text in st.val:
             return [(st, st.val[text] != neg)]
